@@ -418,9 +418,12 @@ def run(ctx):
     if not all(p.as_dict()["complete"] for p in core):
         coverage["not_fully_covered"] = [p.name for p in phases if not p.as_dict()["complete"]]
     assumptions = [
-        "containers of int with std::less; 9 container states (vector 5 elems, SmallVector<int,4> inline 3 / heap 6, "
+        "containers of int; 14 container kinds: with std::less -- vector 5 elems, SmallVector<int,4> inline 3 / heap 6, "
         "FixedCapacityVector<int,4> 3, FlatSet 5, SmallSet<int,4> inline 3 / large 6 on std::set and on FlatSet backing; "
-        "comparison twins differ in the last element; SmallSet inline also against a LARGE twin of equal size, both orders)",
+        "with DualLess (stateful comparator offering a pure const and a counting non-const call operator, so that a const "
+        "member invoking the container's comparator as a non-const object writes into the shared container) -- FlatSet, "
+        "SmallSet inline / large on std::set and on FlatSet backing; the comparator state is part of the lookup digests; "
+        "comparison twins differ in the last element; SmallSet inline also against a LARGE twin of equal size, both orders",
         "2-3 reader threads, 1-2 operations each; one thread may instead mutate its own private container",
         "operation granularity: all interleavings; function-entry granularity: preemption bound 1 (bound 2 only where stated "
         "in preemption_bound_completed); preemption inside a function body between two entries is not explored -- "
